@@ -140,7 +140,9 @@ def checkC15 (c : Ctx) : List String :=
   -- per-piece: outcome k belongs to the k-th observed piece
   let pieces := (c.req.order.zip c.req.outcomes).filterMap (fun (sig, oc) => (c.work.find? (fun w => workSig w == sig)).map (fun w => (w, oc)))
   let unsound := pieces.any (fun (w, oc) => oc == "found" && !verifiesIn c c.afterOf false w)
-  let incomplete := c.req.faults.isEmpty && pieces.any (fun (w, oc) => oc != "found" && verifiesIn c c.beforeOf true w)
+  -- an image of exactly the declared length holding the piece — or, with the resize flag, a shorter image holding it:
+  -- the pre-flight extends it and it then counts as a source (C14)
+  let incomplete := c.req.faults.isEmpty && pieces.any (fun (w, oc) => oc != "found" && verifiesIn c c.beforeOf (!c.req.resize) w)
   let finalC := c.obs.counters.getLast?.getD ⟨0, 0, 0⟩
   let tally := pieces.length == n &&
     (finalC.success != (pieces.filter (·.2 == "found")).length || finalC.failed != (pieces.filter (·.2 == "notfound")).length
